@@ -148,11 +148,17 @@ package y
 //@ func (*WaterMark).DoneUntil
 //@   props C34
 //@   ensures result == w.doneUntil.v
-// WaitForMark returns nil only after the processing goroutine has advanced doneUntil to the
-// index (it closes the waiter's channel only then); doneUntil only grows. Trusted: goroutine.
-//@ trusted func (*WaterMark).WaitForMark
-//@   ensures result == nil ==> w.doneUntil.v >= index
-//@   ensures w.doneUntil.v >= old(w.doneUntil.v)
+// WaitForMark returns nil only once doneUntil has reached the index: either it already has, or
+// the caller blocks until its waiter channel is closed. What the processing goroutine guarantees
+// while the caller is blocked is assumed (rely): doneUntil only grows, and the waiter channel of
+// a mark is closed only after doneUntil reached the mark's index; a context whose Done channel
+// fired reports a non-nil error.
+//@ func (*WaterMark).WaitForMark
+//@   props C34
+//@   ensures[waited] result == nil ==> w.doneUntil.v >= index
+//@   ensures[monotone] w.doneUntil.v >= old(w.doneUntil.v)
+//@   rely[waiter-closed-after-advance] after select havoc w.doneUntil.v : w.doneUntil.v >= old(w.doneUntil.v) && (selected == 1 ==> w.doneUntil.v >= index)
+//@   rely[done-context-has-error] after call Err : ret != nil
 //@   assigns w.doneUntil.v
 
 //@ func SafeCopy
